@@ -46,6 +46,12 @@ def zip_file(members, method, level=None):
             z.writestr(zipfile.ZipInfo(name, (2021, 5, 4, 3, 2, 2)), data, method, compresslevel=level)
     return b.getvalue()
 
+def lha0_file(name, payload, dostime):
+    """LHA level-0 header, method -lh0- (stored), written by hand"""
+    nm = name.encode()
+    body = b"-lh0-" + struct.pack("<IIIBB", len(payload), len(payload), dostime, 0x20, 0) + bytes([len(nm)]) + nm + struct.pack("<H", crc16_arc(payload))
+    return bytes([len(body), sum(body) & 0xff]) + body + payload + b"\x00"
+
 def containers(rng, payload, rle_enc, tier):
     """(tag, bytes) for every encoder setting we can produce independently"""
     out = []
@@ -65,6 +71,10 @@ def containers(rng, payload, rle_enc, tier):
     readme = b"This is a text file, not a module.\r\n" * 3
     out.append(("zip-readme-first", zip_file([("README", readme), ("file_id.diz", b"diz"), ("song.nfo", b"nfo nfo"), ("song.mod", payload)], zipfile.ZIP_DEFLATED, 6)))
     out.append(("zip-readme-last", zip_file([("song.mod", payload), ("readme.txt", readme)], zipfile.ZIP_DEFLATED, 6)))
+    out.append(("zip-docs-in-subdirectory-first", zip_file([("docs/info.txt", readme), ("docs/FILE_ID.DIZ", b"diz"), ("a/b/notes.nfo", b"nfo"), ("music/song.mod", payload)], zipfile.ZIP_DEFLATED, 6)))
+    for t in range(6 if tier == "quick" else 40):
+        # member names of 4 characters and varying time stamps: the header checksum byte takes many values
+        out.append(("lha-lh0-%d" % t, lha0_file(rng.choice(("song", "ode2", "tune", "a.md")), payload, 0x50000000 + rng.randrange(1 << 24))))
     packed = rle_enc(payload)
     out.append(("arc-stored", arc_file([("SONG.MOD", 2, payload, payload)])))
     out.append(("arc-rle90", arc_file([("SONG.MOD", 3, packed, payload)])))
@@ -99,6 +109,13 @@ def main():
             base = open(os.path.join(V.REPO, "test-dev", "data", "ode2ptk.mod"), "rb").read()
             tail = b"\x90" * 3 + b"A" * 254 + b"B" * 255 + b"\x90" + b"C" * 256 + b"\x90\x00" + b"D" * 509 + b"\x90" * 300 + b"E" * 1000 + bytes(range(256))
             pay.append(("synthetic:ode2ptk+runs", base + tail))
+            # a twin of the first payload: same size, same first bytes, different last byte (loaded right after it: nothing may be remembered)
+            n0, p0 = pay[0]
+            pay.insert(1, ("synthetic:twin-of-" + n0, p0[:-1] + bytes([p0[-1] ^ 0x55])))
+            # one payload large enough for several bzip2 blocks at every block size
+            big = [f for f in V.corpus_files() if 220000 < os.path.getsize(f) < 900000 and f.lower().endswith((".xm", ".it", ".s3m", ".mod"))]
+            if big:
+                f = sorted(big)[0]; pay.append((os.path.relpath(f, V.REPO), open(f, "rb").read()))
         packed_all = rle_enc_many([p for _, p in pay])
         jobs = []       # (payload index, tag, path)
         for i, (name, payload) in enumerate(pay):
@@ -123,7 +140,7 @@ def main():
                 ref[i] = (load, tp, tf, md5); continue
             ck.count(); stats["containers"] += 1; kind = tag.split("-")[0]; stats["by_kind"][kind] = stats["by_kind"].get(kind, 0) + 1
             name, payload = pay[i]
-            rep = {"payload_name": name, "container": tag, "payload_file": name if not name.startswith("synthetic") else None, "payload_hex": payload.hex() if name.startswith("synthetic") else None}
+            rep = {"payload_name": name, "container": tag, "payload_file": name if not name.startswith("synthetic") else None, "payload_hex": payload.hex() if name.startswith("synthetic") and len(payload) < 300000 else None}
             want_md5 = hashlib.md5(payload).hexdigest()
             rl, rtp, rtf, rmd5 = ref[i]
             bad = None
@@ -147,7 +164,7 @@ def main():
         shutil.rmtree(tmpd, ignore_errors=True)
     ck.engine_stat("rle90", **stats)
     ck.cov["rule"] = ("payloads: corpus modules of 11 formats and a synthetic module followed by marker bytes and runs of 254/255/256/509/1000 bytes; each wrapped as gzip (levels, FNAME/FCOMMENT/FEXTRA/FHCRC header options), bzip2 (block sizes), "
-                      "xz (check none/crc32/crc64/sha256, presets, tiny dictionary with lc/lp/pb, delta filter), zip (stored, deflate levels, non-module members before and after with excluded names), ARC and ArcFS stored and RLE90 "
+                      "xz (check none/crc32/crc64/sha256, presets, tiny dictionary with lc/lp/pb, delta filter), zip (stored, deflate levels, non-module members before and after with excluded names, also inside subdirectories), hand-written LHA level-0 stored members with varying header checksums, ARC and ArcFS stored and RLE90 "
                       "(the RLE90 stream comes from the extracted, proved writer): loaded by path, the module dump and 40 frames of audio must equal the bare payload's, the reported MD5 must be the MD5 of the payload bytes, "
                       "and testing by path / from a FILE must report the payload's title and format")
     ck.assumptions += ["only RLE90 has a proved writer; gzip / bzip2 / xz / zip streams come from Python's zlib, bz2, lzma and zipfile as independent encoders; compress (.Z), LHA, LZX, PowerPacker, SQSH, MMCMP and S404 have no independent encoder in this sandbox and are not covered by this check (C09 sweeps the repository's own archives of some of them for corruption only)"]
